@@ -12,6 +12,27 @@ import (
 
 func init() { registerProp("C10", runC10) }
 
+// subMore: further names for a (P)SUBSCRIBE command that already names c - the other names of the
+// same kind that publishers and fences use, and one nobody publishes to.
+func subMore(c [2]string) []string {
+	if c[0] == "psubscribe" {
+		out := []string{}
+		for _, nm := range []string{"hc*", "n*", "zz*"} {
+			if nm != c[1] {
+				out = append(out, nm)
+			}
+		}
+		return out
+	}
+	out := []string{}
+	for _, nm := range []string{"news", "hc0", "hc1", "quiet"} {
+		if nm != c[1] {
+			out = append(out, nm)
+		}
+	}
+	return out
+}
+
 type pubEvent struct {
 	channel string
 	payload string // unique
@@ -206,7 +227,13 @@ func runC10(w *World) {
 	subChoices := [][2]string{{"subscribe", "hc0"}, {"psubscribe", "hc*"}, {"subscribe", "news"}, {"psubscribe", "n*"}, {"subscribe", "hc1"}}
 	for i := 0; i < ns; i++ {
 		first := subChoices[w.knob(fmt.Sprintf("sub%d", i), len(subChoices))]
-		a := w.addActor(n, simAddr(fmt.Sprintf("127.0.0.1:%d", 50100+i)), []Cmd{{Args: []string{strings.ToUpper(first[0]), first[1]}, GoLive: true}})
+		firstArgs := []string{strings.ToUpper(first[0]), first[1]}
+		if w.knob(fmt.Sprintf("submulti%d", i), 2) == 1 {
+			// one command naming several channels (patterns): each is acknowledged on its own, and
+			// from its acknowledgement on nothing published to it may be missed
+			firstArgs = append(firstArgs, subMore(first)...)
+		}
+		a := w.addActor(n, simAddr(fmt.Sprintf("127.0.0.1:%d", 50100+i)), []Cmd{{Args: firstArgs, GoLive: true}})
 		a.paused = i > 0 && w.knob(fmt.Sprintf("sublate%d", i), 2) == 1 // some subscribe while writes are already flowing
 		s := &subRx{a: a}
 		subs = append(subs, s)
@@ -259,6 +286,7 @@ func runC10(w *World) {
 	// subscription changes as scheduler actions
 	changes := 2 + w.knob("subchanges", 4)
 	foreignUnsub := w.knob("foreignunsub", 2) == 1
+	multiSub := w.knob("multisub", 2) == 1
 	w.extra = append(w.extra, func() []action {
 		var acts []action
 		for si, s := range subs {
@@ -306,8 +334,24 @@ func runC10(w *World) {
 					s.a.sendLive(cmd, c[1])
 					return
 				}
-				s.wins = append(s.wins, &subWindow{kind: c[0], name: c[1], sendStep: w.step, ackStep: -1, unsubAt: -1})
-				s.a.sendLive(strings.ToUpper(c[0]), c[1])
+				names := []string{c[1]}
+				if multiSub {
+					for _, nm := range subMore(c) {
+						dup := false
+						for _, wn := range s.wins {
+							if wn.kind == c[0] && wn.name == nm && wn.unsubAt < 0 {
+								dup = true
+							}
+						}
+						if !dup {
+							names = append(names, nm)
+						}
+					}
+				}
+				for _, nm := range names {
+					s.wins = append(s.wins, &subWindow{kind: c[0], name: nm, sendStep: w.step, ackStep: -1, unsubAt: -1})
+				}
+				s.a.sendLive(append([]string{strings.ToUpper(c[0])}, names...)...)
 			}})
 		}
 		return acts
@@ -321,7 +365,9 @@ func runC10(w *World) {
 		for _, s := range subs {
 			if len(s.wins) == 0 && len(s.a.ops) > 0 {
 				op := s.a.ops[0]
-				s.wins = append(s.wins, &subWindow{kind: lower(op.Cmd.Args[0]), name: op.Cmd.Args[1], sendStep: op.Invoke, ackStep: -1, unsubAt: -1})
+				for _, nm := range op.Cmd.Args[1:] {
+					s.wins = append(s.wins, &subWindow{kind: lower(op.Cmd.Args[0]), name: nm, sendStep: op.Invoke, ackStep: -1, unsubAt: -1})
+				}
 			}
 			for _, it := range s.a.stream {
 				if it.V.T == '*' && len(it.V.A) == 3 && (it.V.A[0].S == "subscribe" || it.V.A[0].S == "psubscribe") {
